@@ -1,26 +1,53 @@
 package zzprobe
 
 import (
-	"bytes"
 	"fmt"
 	"testing"
 
-	"github.com/Tnze/go-mc/nbt"
+	"go.minekube.com/gate/pkg/edition/java/profile"
+	"go.minekube.com/gate/pkg/edition/java/proto/packet/tablist/playerinfo"
+	"go.minekube.com/gate/pkg/edition/java/proxy/crypto"
+	"go.minekube.com/gate/pkg/gate/proto"
+	itl "go.minekube.com/gate/pkg/internal/tablist"
+	"go.minekube.com/gate/pkg/util/uuid"
 )
 
-func TestProbe(t *testing.T) {
-	for _, b := range [][]byte{
-		{10, 8, 0, 4, 't', 'e', 'x', 't', 0, 0, 0},
-		{8, 0, 2, 'M', '['},
-		{8, 0, 3, 'a', ' ', 'b'},
-		{10, 8, 0, 4, 't', 'e', 'x', 't', 0, 3, '1', '2', '3', 0},
-		{10, 8, 0, 4, 't', 'e', 'x', 't', 0, 4, 't', 'r', 'u', 'e', 0},
-		{10, 8, 0, 4, 't', 'e', 'x', 't', 0, 4, 'a', ':', ' ', 'b', 0},
-	} {
-		var m nbt.RawMessage
-		d := nbt.NewDecoder(bytes.NewReader(b))
-		d.NetworkFormat(true)
-		_, err := d.Decode(&m)
-		fmt.Printf("%v -> snbt %q err=%v\n", b, m.String(), err)
+type v struct{ p proto.Protocol }
+
+func (v *v) Protocol() proto.Protocol            { return v.p }
+func (v *v) IdentifiedKey() crypto.IdentifiedKey { return nil }
+func (v *v) Flush() error                        { return nil }
+func (v *v) WritePacket(p proto.Packet) error    { return v.BufferPacket(p) }
+func (v *v) BufferPacket(p proto.Packet) error {
+	if u, ok := p.(*playerinfo.Upsert); ok {
+		fmt.Printf("  -> viewer: upsert, %d actions, entry name=%q\n", len(u.ActionSet), u.Entries[0].Profile.Name)
+	} else {
+		fmt.Printf("  -> viewer: %T %+v\n", p, p)
 	}
+	return nil
+}
+
+func TestProbe(t *testing.T) {
+	tl := itl.New(&v{764})
+	id := uuid.UUID{1}
+	// backend: ADD_PLAYER + INITIALIZE_CHAT (no session) - what a vanilla server sends for a player without chat session
+	_ = tl.ProcessUpdate(&playerinfo.Upsert{ActionSet: []playerinfo.UpsertAction{playerinfo.AddPlayerAction, playerinfo.InitializeChatAction},
+		Entries: []*playerinfo.Entry{{ProfileID: id, Profile: profile.GameProfile{ID: id, Name: "Bob"}}}})
+	e := tl.Entries()[id]
+	fmt.Printf("entry.ChatSession() == nil: %v (%#v)\n", e.ChatSession() == nil, e.ChatSession())
+	_ = tl.RemoveAll(id)
+	func() {
+		defer func() { fmt.Println("  Add(e) after RemoveAll(id) recovered:", recover()) }()
+		fmt.Println(tl.Add(e))
+	}()
+
+	// profile change
+	tl = itl.New(&v{764})
+	a := &itl.Entry{OwningTabList: tl, EntryAttributes: itl.EntryAttributes{Profile: profile.GameProfile{ID: id, Name: "Bob"}}}
+	b := &itl.Entry{OwningTabList: tl, EntryAttributes: itl.EntryAttributes{Profile: profile.GameProfile{ID: id, Name: "Nick"}}}
+	fmt.Println("Add(Bob):")
+	_ = tl.Add(a)
+	fmt.Println("Add(Nick) same id:")
+	_ = tl.Add(b)
+	fmt.Printf("Gate reports name %q; the viewer was only ever told \"Bob\"\n", tl.Entries()[id].Profile().Name)
 }
